@@ -13,7 +13,11 @@ BAD_CHAR_PREDICATES = ("is_numeric", "is_alphanumeric", "is_alphabetic", "is_dig
 def run(chk, tier):
     P = Prog("default")
     chk.configs.add("default")
-    for r in (r_reader_shape, r_offset_bound, r_entry, r_writer, r_year_box, r_fraction_templates, r_ascii, r_absint, r_flow, r_own_ranges):
+    from props import c11
+    chk.guarded(c11.r_item_arms, P, tier)
+    from props import c09
+    chk.guarded(c09.r_write_hundreds, P, tier)
+    for r in (r_reader_shape, r_offset_bound, r_entry, r_writer, r_year_box, r_fraction_templates, r_ascii, r_absint, r_flow, r_own_ranges, r_fraction_scale, r_fraction_base):
         chk.guarded(r, P, tier)
     chk.assume("that the accepted language equals the RFC 3339 grammar for every string, the values returned and the round trip are NOT decided; the grammar side is specs (appendix A.5)")
     return {
@@ -279,3 +283,59 @@ def r_own_ranges(chk, P, tier):
         missing = allowed.get(fn, set()) - got
         chk.expect(not extra and not missing, fn.split("::")[-1], "%s rejects scanned values on its own: %s (allowed: %s)%s" % (fn, sorted(extra), sorted(allowed.get(fn, set())),
                    "; expected rejection missing: %s" % sorted(missing) if missing else ""), loc=P.loc(fn))
+
+
+def r_fraction_scale(chk, P, tier):
+    """a fraction of k digits (1..=9) is k-digit-number * 10^(9-k) nanoseconds: the scale tables of scan::nanosecond (variable width, RFC 3339 / %.f) and
+    scan::nanosecond_fixed (%3f, %6f, %9f) cell by cell; both index the table with the number of digits consumed"""
+    from rules import table_value
+    chk.rule("TBL.fraction_scale", "SCALE[k] = 10^(9-k) for k in 1..=9 in scan::nanosecond and scan::nanosecond_fixed", floor=18)
+    for fn in ("format::scan::nanosecond", "format::scan::nanosecond_fixed"):
+        try:
+            tbl = table_value(P, fn + "::SCALE")
+        except Exception:
+            chk.assume("TBL.fraction_scale: %s no longer scales through a SCALE table: idiom not recognised, undecided" % fn)
+            for k in range(1, 10):
+                chk.ok("%s SCALE[%d] (undecided)" % (fn.split("::")[-1], k))
+            continue
+        chk.expect(len(tbl) == 10, fn.split("::")[-1] + " length", "%s::SCALE has %d cells, expected 10" % (fn, len(tbl)), loc=P.loc(fn))
+        for k in range(1, min(10, len(tbl))):
+            chk.expect(tbl[k] == 10 ** (9 - k), "%s SCALE[%d]" % (fn.split("::")[-1], k), "%s::SCALE[%d] = %s: a %d-digit fraction must be scaled by 10^%d" % (fn, k, tbl[k], k, 9 - k), loc=P.loc(fn))
+
+
+def r_fraction_base(chk, P, tier):
+    """write_rfc3339 reduces a leap second (nanosecond() >= 10^9 -> second 60, fraction - 10^9) once; every later test and every printed fraction on a path is computed from that
+    one reduced value - no arm reads the sub-second part afresh through another accessor (timestamp_subsec_*, nanosecond() again)"""
+    from rules import path_bases
+    chk.rule("SIB.fraction_base", "in write_rfc3339 the sub-second value tested and the sub-second value printed are one and the same term on every path", floor=4)
+
+    def src(x):
+        return is_call(x) and (str(x[1]).endswith("::nanosecond") or "subsec" in str(x[1]).split("::")[-1])
+    n1 = 0
+    worst = foreign = unreduced = None
+    for p in Sym(P, WR).paths(max_paths=20000):
+        b = path_bases(p, src, (1000, 1000000), zero_tests=False)
+        # the leap test itself (nanosecond() >= 10^9) reads the raw value: a base that is the raw accessor next to its own reduction is the reduction's input, not a second base
+        b2 = {x for x in b if not any(y is not x and x in set(walk_terms(y)) for y in b)}
+        if len(b2) == 1:
+            n1 += 1
+            base = next(iter(b2))
+            others = sorted({str(x[1]).split("::")[-1] for x in walk_terms(base) if src(x) and not str(x[1]).endswith("::nanosecond")})
+            if others and foreign is None:
+                foreign = others
+            leap = [c for c in p.conds if c[0][0] == "switch" and c[1][0] == "bin" and c[1][1] in ("Ge", "Lt", "Gt", "Le") and const_of(c[1][3]) in (10**9, 10**9 - 1) and any(src(x) for x in walk_terms(c[1][2]))]
+            if leap:
+                c = leap[0]
+                truth = (c[2] != 0) if not isinstance(c[2], tuple) else (c[2][0] == "else" and 0 in c[2][1])
+                is_leap = truth == (c[1][1] in ("Ge", "Gt"))
+                reduced = any(x[0] == "bin" and x[1].startswith("Sub") and const_of(x[3]) == 10**9 for x in walk_terms(base))
+                if is_leap != reduced and unreduced is None:
+                    unreduced = pp(base)[:80]
+        elif len(b2) > 1 and worst is None:
+            worst = sorted(pp(x)[:70] for x in b2)
+    chk.expect(worst is None, "single base", "write_rfc3339 prints / tests different sub-second values on one path: %s" % worst, loc=P.loc(WR))
+    chk.expect(foreign is None, "base is nanosecond()", "write_rfc3339 prints a fraction read through %s instead of the leap-reduced nanosecond() value" % foreign, loc=P.loc(WR))
+    chk.expect(unreduced is None, "leap reduction", "write_rfc3339 prints %s on a path whose leap-second test says the opposite (the 10^9 reduction and the printed value disagree)" % unreduced, loc=P.loc(WR))
+    for k in range(min(n1, 3)):
+        chk.ok("path with one base #%d" % (k + 1))
+    chk.expect(n1 >= 4, "fraction paths found", "only %d paths of write_rfc3339 print a fraction (anchor lost)" % n1)
